@@ -225,6 +225,7 @@ impl Scenario for AcceptScenario {
                 _ => timeout * 3,
             }));
         }
+        crate::verif::smast::sprinkle_split_replies(rng, &mut script);
         SmastCase {
             cfg,
             chunk: rng.below(5) as u8,
@@ -755,7 +756,9 @@ pub fn analyse(
                 ));
                 break;
             }
-            if tx.must_accept && tx.con && tx.confirms != 1 {
+            // (a fragment that arrived in the last moments of the run may have its confirmation still on the way)
+            let settled = tx.t + case.latency.0 + case.latency.1 + 10 < run.end_ms;
+            if tx.must_accept && tx.con && tx.confirms != 1 && (settled || tx.confirms > 1) {
                 violation = Some(Violation::new(
                     "C15/accepted-fragment-not-confirmed-once",
                     format!("{} confirms={}", if tx.uns { "unsolicited" } else if tx.is_read_response { "read-response" } else { "non-read-response" }, tx.confirms),
